@@ -944,6 +944,7 @@ def run(ctx):
     run_hand_built(ctx)
     run_source_forms(ctx)
     run_long_chains(ctx)
+    C11_extend.run_lax_stream(ctx, sdl, real_extend, extension_doc, canon, diff_path, EXT_CASES)    # last consumer of ctx.rng
     run_model(ctx, batch)
     ctx.extra["documents_sent_to_model"] = len(batch.cases)
     C11_extend.run_model(ctx, probes, EXT_CASES, canon, sort_dump, diff_path)
@@ -960,6 +961,11 @@ def replay(ctx, data):
         c2 = type(ctx)(ctx.prop, ctx.tier, ctx.seed)
         (run_special if inp.get("special") else run_schema_directives)(c2)
         return not any(f["kind"] == "property" and f["detail"].get("sdl") == inp.get("sdl") for f in c2.found)
+    if "ignored_in_lax" in inp:
+        real = real_extend(inp["base_sdl"], inp["ext_sdl"], inp.get("strict", True))
+        if inp.get("strict", True):
+            return real[0] == "rej"
+        return real[0] == "ok" and ("expected" not in inp or canon(real[1]) == canon(inp["expected"]))
     if "probe" in inp:
         exp = {p[0]: p for p in C11_extend.PROBES}.get(inp["probe"])
         real = real_extend(inp["base_sdl"], inp["ext_sdl"], inp.get("strict", True))
